@@ -132,6 +132,7 @@ type Engine struct {
 	funcs         map[string]bool
 	maxAlloc      int
 	kv            map[string]Value // per-path scratch store (variable stub etc.)
+	condWaiters   map[*Value][]*condWaiter
 	sleepPark     bool             // time.Sleep parks non-main goroutines until WakeSleepers
 	sleepGen      int
 	sleepers      int
@@ -193,6 +194,7 @@ func (e *Engine) resetPath(prefix []int64) {
 	e.kv = map[string]Value{}
 	e.pools = nil
 	e.sleepPark, e.sleepGen, e.sleepers = false, 0, 0
+	e.condWaiters = nil
 	e.finishBudget, e.finishMsg = 0, ""
 	e.mutexes = map[*Value]int{}
 	e.sched = nil
@@ -515,7 +517,7 @@ func (e *Engine) tick(n int) {
 		panic(pathEnd{"violation-end", msg})
 	}
 	if e.instrs > e.maxInstrs {
-		panic(pathEnd{"fuel", fmt.Sprintf("more than %d instructions on one path", e.maxInstrs)})
+		panic(pathEnd{"fuel", fmt.Sprintf("more than %d instructions on one path (last at %s)", e.maxInstrs, e.where(e.curFr))})
 	}
 }
 
